@@ -74,7 +74,7 @@ pub mod env {
     }
 
     /// radix-common/src/crypto/hash.rs :: struct Hash (32 raw bytes, Copy)
-    #[derive(Clone, Copy)]
+    #[derive(Clone, Copy, PartialEq, Eq, Debug)]
     pub struct Hash(pub [u8; 32]);
 
     /// core::convert::AsRef re-declared (vstd has no specification of `AsRef::as_ref`)
@@ -121,6 +121,133 @@ pub mod env {
         { unimplemented!() }
     }
 
+
+    // ---- environment of summarized_raw.rs ---------------------------------------------------------
+    /// sbor `Categorize<ManifestCustomValueKind>`: the value kind a type announces
+    pub trait ManifestCategorize {
+        spec fn value_kind_spec() -> super::unit::ManifestValueKind;
+        fn value_kind() -> (r: super::unit::ManifestValueKind) ensures r == Self::value_kind_spec();
+    }
+    impl ManifestCategorize for Vec<u8> {
+        open spec fn value_kind_spec() -> super::unit::ManifestValueKind { super::unit::ValueKind::Array }
+        fn value_kind() -> (r: super::unit::ManifestValueKind) { super::unit::ValueKind::Array }
+    }
+    /// the byte-vector and hash codecs (sbor / radix-common), not under contract: only the assumed `Decode` frame
+    impl<'a> Decode<super::unit::ManifestCustomValueKind, super::unit::ManifestDecoder<'a>> for Vec<u8> {
+        #[verifier::external_body]
+        fn decode_body_with_value_kind(decoder: &mut super::unit::ManifestDecoder<'a>, value_kind: super::unit::ManifestValueKind) -> (ret: Result<Self, DecodeError>) { unimplemented!() }
+    }
+    impl super::unit::ManifestDecode for Vec<u8> {}
+    impl<'a> Decode<super::unit::ManifestCustomValueKind, super::unit::ManifestDecoder<'a>> for Hash {
+        #[verifier::external_body]
+        fn decode_body_with_value_kind(decoder: &mut super::unit::ManifestDecoder<'a>, value_kind: super::unit::ManifestValueKind) -> (ret: Result<Self, DecodeError>) { unimplemented!() }
+    }
+    impl super::unit::ManifestDecode for Hash {}
+    /// radix-transactions `Reference` / `IndexSet<Reference>` / `extract_references` (SBOR traverser): opaque here --
+    /// references do not enter any hash
+    pub struct Reference;
+    #[verifier::external_body]
+    #[verifier::reject_recursive_types(T)]
+    pub struct IndexSet<T> { _p: PhantomData<T> }
+    pub mod traversal {
+        pub enum ExpectedStart<X: super::CustomValueKind> { PayloadPrefix(u8), Value, ValueBody(super::super::unit::ValueKind<X>) }
+    }
+    #[verifier::external_body]
+    pub fn extract_references(encoded: &[u8], expected_start: traversal::ExpectedStart<super::unit::ManifestCustomValueKind>) -> IndexSet<Reference> { unimplemented!() }
+
+
+    // ---- environment of the representative payloads (V2 notarized transaction / signed intent) ----------
+    /// wrapped hashes (`define_wrapped_hash!`): newtypes over Hash; `IsHash::from_hash` = `hash.into()` = `Self(hash)`
+    #[derive(Clone, Copy, PartialEq, Eq, Debug)]
+    pub struct SignedTransactionIntentHash(pub Hash);
+    impl SignedTransactionIntentHash { pub fn from_hash(hash: Hash) -> (r: Self) ensures r.0 == hash { Self(hash) } }
+    #[derive(Clone, Copy, PartialEq, Eq, Debug)]
+    pub struct NotarizedTransactionHash(pub Hash);
+    impl NotarizedTransactionHash { pub fn from_hash(hash: Hash) -> (r: Self) ensures r.0 == hash { Self(hash) } }
+    /// the unprepared models: only their names are needed (their derive-generated codecs are not under contract)
+    pub struct SignedTransactionIntentV2;
+    pub struct NotarizedTransactionV2;
+    #[derive(Clone, PartialEq, Eq, Debug)]
+    pub struct NotarySignatureV2;
+    impl<'a> Decode<super::unit::ManifestCustomValueKind, super::unit::ManifestDecoder<'a>> for NotarySignatureV2 {
+        #[verifier::external_body]
+        fn decode_body_with_value_kind(decoder: &mut super::unit::ManifestDecoder<'a>, value_kind: super::unit::ManifestValueKind) -> (ret: Result<Self, DecodeError>) { unimplemented!() }
+    }
+    impl super::unit::ManifestDecode for NotarySignatureV2 {}
+    /// `#[sbor(transparent)]` over SignatureV1, an SBOR enum
+    impl ManifestCategorize for NotarySignatureV2 {
+        open spec fn value_kind_spec() -> super::unit::ManifestValueKind { super::unit::ValueKind::Enum }
+        fn value_kind() -> (r: super::unit::ManifestValueKind) { super::unit::ValueKind::Enum }
+    }
+    /// the raw payload newtypes (`define_raw_transaction_payload!`)
+    pub struct RawSignedTransactionIntent(pub Vec<u8>);
+    pub struct RawNotarizedTransaction(pub Vec<u8>);
+    pub uninterp spec fn raw_as_slice(a: &Vec<u8>) -> &[u8];
+    pub broadcast axiom fn ax_raw_as_slice(a: &Vec<u8>) ensures #[trigger] raw_as_slice(a)@ == a@;
+    impl AsRef<[u8]> for RawSignedTransactionIntent {
+        open spec fn as_ref_spec(&self) -> &[u8] { raw_as_slice(&self.0) }
+        #[verifier::external_body]
+        fn as_ref(&self) -> (r: &[u8]) { self.0.as_ref() }
+    }
+    impl AsRef<[u8]> for RawNotarizedTransaction {
+        open spec fn as_ref_spec(&self) -> &[u8] { raw_as_slice(&self.0) }
+        #[verifier::external_body]
+        fn as_ref(&self) -> (r: &[u8]) { self.0.as_ref() }
+    }
+    /// the three children of a signed V2 intent: ABSTRACT prepared values (any implementation of the trait contract)
+    #[derive(Clone, PartialEq, Eq, Debug)]
+    pub struct PreparedTransactionIntentV2 { pub summary: super::unit::Summary }
+    #[derive(Clone, PartialEq, Eq, Debug)]
+    pub struct PreparedIntentSignaturesV2 { pub summary: super::unit::Summary }
+    #[derive(Clone, PartialEq, Eq, Debug)]
+    pub struct PreparedNonRootSubintentSignaturesV2 { pub summary: super::unit::Summary }
+    pub uninterp spec fn abstract_child_rel(s: super::unit::Summary, input: Seq<u8>, start: int, end: int) -> bool;
+    impl super::unit::HasSummarySpec for PreparedTransactionIntentV2 {
+        open spec fn summary_spec(&self) -> super::unit::Summary { self.summary }
+        open spec fn with_summary(self, s: super::unit::Summary) -> Self { PreparedTransactionIntentV2 { summary: s } }
+    }
+    impl super::unit::HasSummary for PreparedTransactionIntentV2 {
+        fn get_summary(&self) -> (r: &super::unit::Summary) { &self.summary }
+        fn summary_mut(&mut self) -> (r: &mut super::unit::Summary) { &mut self.summary }
+    }
+    impl super::unit::ValueSpec for PreparedTransactionIntentV2 {
+        open spec fn value_rel(&self, input: Seq<u8>, start: int, end: int) -> bool { abstract_child_rel(self.summary, input, start, end) }
+    }
+    impl super::unit::TransactionPreparableFromValue for PreparedTransactionIntentV2 {
+        #[verifier::external_body]
+        fn prepare_from_value(decoder: &mut super::unit::TransactionDecoder) -> (ret: Result<Self, super::unit::PrepareError>) { unimplemented!() }
+    }
+    impl super::unit::HasSummarySpec for PreparedIntentSignaturesV2 {
+        open spec fn summary_spec(&self) -> super::unit::Summary { self.summary }
+        open spec fn with_summary(self, s: super::unit::Summary) -> Self { PreparedIntentSignaturesV2 { summary: s } }
+    }
+    impl super::unit::HasSummary for PreparedIntentSignaturesV2 {
+        fn get_summary(&self) -> (r: &super::unit::Summary) { &self.summary }
+        fn summary_mut(&mut self) -> (r: &mut super::unit::Summary) { &mut self.summary }
+    }
+    impl super::unit::ValueSpec for PreparedIntentSignaturesV2 {
+        open spec fn value_rel(&self, input: Seq<u8>, start: int, end: int) -> bool { abstract_child_rel(self.summary, input, start, end) }
+    }
+    impl super::unit::TransactionPreparableFromValue for PreparedIntentSignaturesV2 {
+        #[verifier::external_body]
+        fn prepare_from_value(decoder: &mut super::unit::TransactionDecoder) -> (ret: Result<Self, super::unit::PrepareError>) { unimplemented!() }
+    }
+    impl super::unit::HasSummarySpec for PreparedNonRootSubintentSignaturesV2 {
+        open spec fn summary_spec(&self) -> super::unit::Summary { self.summary }
+        open spec fn with_summary(self, s: super::unit::Summary) -> Self { PreparedNonRootSubintentSignaturesV2 { summary: s } }
+    }
+    impl super::unit::HasSummary for PreparedNonRootSubintentSignaturesV2 {
+        fn get_summary(&self) -> (r: &super::unit::Summary) { &self.summary }
+        fn summary_mut(&mut self) -> (r: &mut super::unit::Summary) { &mut self.summary }
+    }
+    impl super::unit::ValueSpec for PreparedNonRootSubintentSignaturesV2 {
+        open spec fn value_rel(&self, input: Seq<u8>, start: int, end: int) -> bool { abstract_child_rel(self.summary, input, start, end) }
+    }
+    impl super::unit::TransactionPreparableFromValue for PreparedNonRootSubintentSignaturesV2 {
+        #[verifier::external_body]
+        fn prepare_from_value(decoder: &mut super::unit::TransactionDecoder) -> (ret: Result<Self, super::unit::PrepareError>) { unimplemented!() }
+    }
+
     /// blake2::Blake2b256 (incremental hasher), modelled by the bytes absorbed so far
     #[verifier::external_body]
     pub struct Blake2b256 { _p: () }
@@ -159,7 +286,7 @@ pub mod unit {
     use super::rt::*;
     use super::bytes::{spec_hash, ax_hash_len};
     use super::env::*;
-    broadcast use {super::try_from::axiom_question_mark_calls_from, ax_hash_len, ax_arr2_as_slice, ax_hash_as_slice, ax_vec_as_slice, ax_size_at};
+    broadcast use {super::try_from::axiom_question_mark_calls_from, ax_hash_len, ax_arr2_as_slice, ax_hash_as_slice, ax_vec_as_slice, ax_raw_as_slice, ax_size_at};
 
     /*@item radix-common/src/crypto/hash_accumulator.rs :: struct HashAccumulator
     @*/
@@ -575,6 +702,14 @@ pub mod unit {
     }
 
     impl ExpectedHeaderKind {
+        pub open spec fn with_disc_spec(self, discriminator: u8) -> ExpectedTupleHeader {
+            match self {
+                ExpectedHeaderKind::EnumNoValueKind => ExpectedTupleHeader::EnumNoValueKind { discriminator },
+                ExpectedHeaderKind::EnumWithValueKind => ExpectedTupleHeader::EnumWithValueKind { discriminator },
+                ExpectedHeaderKind::TupleNoValueKind => ExpectedTupleHeader::TupleNoValueKind,
+                ExpectedHeaderKind::TupleWithValueKind => ExpectedTupleHeader::TupleWithValueKind,
+            }
+        }
         /*@fn radix-transactions/src/model/preparation/summarized_composite.rs :: impl ExpectedHeaderKind :: fn with_discriminator
         @sig
             ensures ret == (match self {
@@ -641,6 +776,23 @@ pub mod unit {
             forall|j: int| 0 <= j < input.len() - pos ==> rest_of(input, pos)[j] == input[pos + j],
     {
         assert(rest_of(input, pos).subrange(k, rest_of(input, pos).len() as int) =~= rest_of(input, pos + k));
+    }
+
+    /// ORACLE (canonical form of an array header): [0x20 if the kind byte is present] element-kind byte, LEB128 count
+    pub open spec fn array_header_shape(rest: Seq<u8>, read_value_kind: bool, elem: ManifestValueKind) -> bool {
+        let k: int = if read_value_kind { 1 } else { 0 };
+        &&& rest.len() >= k + 1
+        &&& (read_value_kind ==> rest[0] == 0x20)
+        &&& rest[k] == kind_byte(elem)
+        &&& size_at(rest.subrange(k + 1, rest.len() as int)) is Some
+    }
+    pub open spec fn array_header_ok(rest: Seq<u8>, read_value_kind: bool, elem: ManifestValueKind, n: int) -> bool {
+        let k: int = if read_value_kind { 1 } else { 0 };
+        array_header_shape(rest, read_value_kind, elem) && size_at(rest.subrange(k + 1, rest.len() as int))->Some_0.0 == n
+    }
+    pub open spec fn array_header_len(rest: Seq<u8>, read_value_kind: bool) -> int {
+        let k: int = if read_value_kind { 1 } else { 0 };
+        k + 1 + size_at(rest.subrange(k + 1, rest.len() as int))->Some_0.1
     }
 
     impl<'a> TransactionDecoder<'a> {
@@ -719,8 +871,9 @@ pub mod unit {
             requires old(self).wf()
             ensures
                 final(self).same_stream(old(self)), wf_at(final(self).input(), final(self).pos()), final(self).pos() >= old(self).pos(),
-                ret matches Ok(n) ==> n <= 0x0FFF_FFFF && old(self).rest().len() >= 2 && old(self).rest()[0] == 0x20 && old(self).rest()[1] == kind_byte(element_value_kind)
-                    && size_at(old(self).rest().subrange(2, old(self).rest().len() as int)) == Some((n, final(self).pos() - old(self).pos() - 2)),
+                ret is Ok <==> array_header_shape(old(self).rest(), true, element_value_kind),
+                ret matches Ok(n) ==> n <= 0x0FFF_FFFF && array_header_ok(old(self).rest(), true, element_value_kind, n as int)
+                    && final(self).pos() == old(self).pos() + array_header_len(old(self).rest(), true),
                 ret matches Err(e) ==> e is DecodeError
         @entry
             let ghost inp = self.input(); let ghost p0 = self.pos();
@@ -731,8 +884,9 @@ pub mod unit {
             requires old(self).wf()
             ensures
                 final(self).same_stream(old(self)), wf_at(final(self).input(), final(self).pos()), final(self).pos() >= old(self).pos(),
-                ret matches Ok(n) ==> n <= 0x0FFF_FFFF && old(self).rest().len() >= 1 && old(self).rest()[0] == kind_byte(element_value_kind)
-                    && size_at(old(self).rest().subrange(1, old(self).rest().len() as int)) == Some((n, final(self).pos() - old(self).pos() - 1)),
+                ret is Ok <==> array_header_shape(old(self).rest(), false, element_value_kind),
+                ret matches Ok(n) ==> n <= 0x0FFF_FFFF && array_header_ok(old(self).rest(), false, element_value_kind, n as int)
+                    && final(self).pos() == old(self).pos() + array_header_len(old(self).rest(), false),
                 ret matches Err(e) ==> e is DecodeError
         @entry
             let ghost inp = self.input(); let ghost p0 = self.pos();
@@ -904,7 +1058,7 @@ pub mod unit {
     // radix-transactions/src/model/preparation/{summary.rs, traits.rs, summarized_composite.rs}
     // =============================================================================================
     /*@item radix-transactions/src/model/preparation/summary.rs :: struct Summary
-    @derive Clone
+    @derive Debug, Clone, Eq, PartialEq
     @*/
 
     /// spec companion of `HasSummary` (R12: the real trait has no supertrait; the companion only carries the ghost
@@ -1068,6 +1222,636 @@ pub mod unit {
         open spec fn eff_sum(&self) -> int { 0int + self.0.summary_spec().effective_length + self.1.summary_spec().effective_length + self.2.summary_spec().effective_length + self.3.summary_spec().effective_length + self.4.summary_spec().effective_length + self.5.summary_spec().effective_length }
         open spec fn hashed_sum(&self) -> int { 0int + self.0.summary_spec().total_bytes_hashed + self.1.summary_spec().total_bytes_hashed + self.2.summary_spec().total_bytes_hashed + self.3.summary_spec().total_bytes_hashed + self.4.summary_spec().total_bytes_hashed + self.5.summary_spec().total_bytes_hashed }
         open spec fn children_rel(&self, input: Seq<u8>, start: int, end: int) -> bool { exists|m1: int, m2: int, m3: int, m4: int, m5: int| self.0.value_rel(input, start, m1) && self.1.value_rel(input, m1, m2) && self.2.value_rel(input, m2, m3) && self.3.value_rel(input, m3, m4) && self.4.value_rel(input, m4, m5) && self.5.value_rel(input, m5, end) }
+    }
+
+    /// the written-out preimages of the generated impls ARE the oracle `digest_input` (hand proofs, per arity)
+    pub proof fn lemma_preimage_0(prefix: Seq<u8>)
+        ensures ().preimage(prefix) == digest_input(prefix, ().child_hashes())
+    {}
+    pub proof fn lemma_preimage_1<T0: TransactionPreparableFromValue>(t: (T0,), prefix: Seq<u8>)
+        ensures t.preimage(prefix) == digest_input(prefix, t.child_hashes())
+    {
+        let e = Seq::<Hash>::empty();
+        lemma_digest_push(prefix, e, t.0.summary_spec().hash);
+        assert(t.child_hashes() =~= e.push(t.0.summary_spec().hash));
+    }
+    pub proof fn lemma_preimage_2<T0: TransactionPreparableFromValue, T1: TransactionPreparableFromValue>(t: (T0, T1), prefix: Seq<u8>)
+        ensures t.preimage(prefix) == digest_input(prefix, t.child_hashes())
+    {
+        let e = Seq::<Hash>::empty();
+        let (h0, h1) = (t.0.summary_spec().hash, t.1.summary_spec().hash);
+        lemma_digest_push(prefix, e, h0); lemma_digest_push(prefix, e.push(h0), h1);
+        assert(t.child_hashes() =~= e.push(h0).push(h1));
+    }
+    pub proof fn lemma_preimage_3<T0: TransactionPreparableFromValue, T1: TransactionPreparableFromValue, T2: TransactionPreparableFromValue>(t: (T0, T1, T2), prefix: Seq<u8>)
+        ensures t.preimage(prefix) == digest_input(prefix, t.child_hashes())
+    {
+        let e = Seq::<Hash>::empty();
+        let (h0, h1, h2) = (t.0.summary_spec().hash, t.1.summary_spec().hash, t.2.summary_spec().hash);
+        lemma_digest_push(prefix, e, h0); lemma_digest_push(prefix, e.push(h0), h1); lemma_digest_push(prefix, e.push(h0).push(h1), h2);
+        assert(t.child_hashes() =~= e.push(h0).push(h1).push(h2));
+    }
+    pub proof fn lemma_preimage_4<T0: TransactionPreparableFromValue, T1: TransactionPreparableFromValue, T2: TransactionPreparableFromValue, T3: TransactionPreparableFromValue>(t: (T0, T1, T2, T3), prefix: Seq<u8>)
+        ensures t.preimage(prefix) == digest_input(prefix, t.child_hashes())
+    {
+        let e = Seq::<Hash>::empty();
+        let (h0, h1, h2, h3) = (t.0.summary_spec().hash, t.1.summary_spec().hash, t.2.summary_spec().hash, t.3.summary_spec().hash);
+        lemma_digest_push(prefix, e, h0); lemma_digest_push(prefix, e.push(h0), h1); lemma_digest_push(prefix, e.push(h0).push(h1), h2);
+        lemma_digest_push(prefix, e.push(h0).push(h1).push(h2), h3);
+        assert(t.child_hashes() =~= e.push(h0).push(h1).push(h2).push(h3));
+    }
+    pub proof fn lemma_preimage_5<T0: TransactionPreparableFromValue, T1: TransactionPreparableFromValue, T2: TransactionPreparableFromValue, T3: TransactionPreparableFromValue, T4: TransactionPreparableFromValue>(t: (T0, T1, T2, T3, T4), prefix: Seq<u8>)
+        ensures t.preimage(prefix) == digest_input(prefix, t.child_hashes())
+    {
+        let e = Seq::<Hash>::empty();
+        let (h0, h1, h2, h3, h4) = (t.0.summary_spec().hash, t.1.summary_spec().hash, t.2.summary_spec().hash, t.3.summary_spec().hash, t.4.summary_spec().hash);
+        lemma_digest_push(prefix, e, h0); lemma_digest_push(prefix, e.push(h0), h1); lemma_digest_push(prefix, e.push(h0).push(h1), h2);
+        lemma_digest_push(prefix, e.push(h0).push(h1).push(h2), h3); lemma_digest_push(prefix, e.push(h0).push(h1).push(h2).push(h3), h4);
+        assert(t.child_hashes() =~= e.push(h0).push(h1).push(h2).push(h3).push(h4));
+    }
+    pub proof fn lemma_preimage_6<T0: TransactionPreparableFromValue, T1: TransactionPreparableFromValue, T2: TransactionPreparableFromValue, T3: TransactionPreparableFromValue, T4: TransactionPreparableFromValue, T5: TransactionPreparableFromValue>(t: (T0, T1, T2, T3, T4, T5), prefix: Seq<u8>)
+        ensures t.preimage(prefix) == digest_input(prefix, t.child_hashes())
+    {
+        let e = Seq::<Hash>::empty();
+        let (h0, h1, h2, h3, h4, h5) = (t.0.summary_spec().hash, t.1.summary_spec().hash, t.2.summary_spec().hash, t.3.summary_spec().hash, t.4.summary_spec().hash, t.5.summary_spec().hash);
+        lemma_digest_push(prefix, e, h0); lemma_digest_push(prefix, e.push(h0), h1); lemma_digest_push(prefix, e.push(h0).push(h1), h2);
+        lemma_digest_push(prefix, e.push(h0).push(h1).push(h2), h3); lemma_digest_push(prefix, e.push(h0).push(h1).push(h2).push(h3), h4);
+        lemma_digest_push(prefix, e.push(h0).push(h1).push(h2).push(h3).push(h4), h5);
+        assert(t.child_hashes() =~= e.push(h0).push(h1).push(h2).push(h3).push(h4).push(h5));
+    }
+
+    // ---- composites: arrays ---------------------------------------------------------------------------
+    /// the summary hashes of a sequence of prepared children, in order
+    pub open spec fn hashes_of<T: HasSummarySpec>(items: Seq<T>) -> Seq<Hash> {
+        Seq::new(items.len(), |i: int| items[i].summary_spec().hash)
+    }
+    pub open spec fn eff_total<T: HasSummarySpec>(items: Seq<T>) -> int
+        decreases items.len()
+    { if items.len() == 0 { 0 } else { eff_total(items.drop_last()) + items.last().summary_spec().effective_length } }
+    pub open spec fn hashed_total<T: HasSummarySpec>(items: Seq<T>) -> int
+        decreases items.len()
+    { if items.len() == 0 { 0 } else { hashed_total(items.drop_last()) + items.last().summary_spec().total_bytes_hashed } }
+    /// the elements were prepared from consecutive, gap-free byte ranges of input[start..end]
+    pub open spec fn bodies_rel<T: ValueBodySpec>(items: Seq<T>, input: Seq<u8>, start: int, end: int) -> bool
+        decreases items.len()
+    {
+        if items.len() == 0 { start == end }
+        else { exists|m: int| bodies_rel(items.drop_last(), input, start, m) && #[trigger] items.last().body_rel(input, m, end) }
+    }
+
+    pub trait ArraySpec: Sized {
+        spec fn child_hashes(&self) -> Seq<Hash>;
+        spec fn count(&self) -> int;
+        spec fn elem_kind() -> ManifestValueKind;
+        spec fn eff_sum(&self) -> int;
+        spec fn hashed_sum(&self) -> int;
+        spec fn children_rel(&self, input: Seq<u8>, start: int, end: int) -> bool;
+    }
+    pub trait ArrayPreparable: ArraySpec + Sized {
+        fn prepare_into_concatenated_digest(decoder: &mut TransactionDecoder, accumulator: HashAccumulator, value_type: ValueType, max_length: usize, read_value_kind: bool) -> (ret: Result<(Self, Summary), PrepareError>)
+            requires old(decoder).wf(), accumulator.wf(), accumulator.input().len() <= 0xFFFF
+            ensures
+                ret matches Ok(p) ==> prepared_frame(old(decoder), final(decoder))
+                    && array_header_ok(old(decoder).rest(), read_value_kind, Self::elem_kind(), p.0.count())
+                    // over-limit sizes are rejected: exact boundary
+                    && p.0.count() <= max_length
+                    && p.0.child_hashes().len() == p.0.count()
+                    && p.1.hash.0@ == spec_hash(digest_input(accumulator.input(), p.0.child_hashes()))
+                    && p.1.effective_length == 2 + p.0.eff_sum()
+                    && p.1.total_bytes_hashed == p.0.hashed_sum() + accumulator.input().len() + 32 * p.0.count()
+                    && p.0.children_rel(old(decoder).input(), old(decoder).pos() + array_header_len(old(decoder).rest(), read_value_kind), final(decoder).pos()),
+                // documented error of an over-limit count (the header itself being well formed)
+                forall|n: int| array_header_ok(old(decoder).rest(), read_value_kind, Self::elem_kind(), n) && n > max_length && old(decoder).depths().0 < old(decoder).depths().1
+                    ==> ret == Err::<(Self, Summary), PrepareError>(PrepareError::TooManyValues { value_type, actual: n as usize, max: max_length });
+    }
+    impl<T: TransactionPreparableFromValueBody> ArraySpec for Vec<T> {
+        open spec fn child_hashes(&self) -> Seq<Hash> { hashes_of(self@) }
+        open spec fn count(&self) -> int { self@.len() as int }
+        open spec fn elem_kind() -> ManifestValueKind { T::value_kind_spec() }
+        open spec fn eff_sum(&self) -> int { eff_total(self@) }
+        open spec fn hashed_sum(&self) -> int { hashed_total(self@) }
+        open spec fn children_rel(&self, input: Seq<u8>, start: int, end: int) -> bool { bodies_rel(self@, input, start, end) }
+    }
+    impl<T: TransactionPreparableFromValueBody> ArrayPreparable for Vec<T> {
+        /*@fn radix-transactions/src/model/preparation/summarized_composite.rs :: impl<T: TransactionPreparableFromValueBody> ArrayPreparable for Vec<T> :: fn prepare_into_concatenated_digest
+        @entry
+            let ghost inp = decoder.input(); let ghost p0 = decoder.pos(); let ghost acc0 = accumulator.input();
+            proof { lemma_rest_shift(inp, p0, 0); if p0 + 1 <= inp.len() { lemma_rest_shift(inp, p0, 1); } if p0 + 2 <= inp.len() { lemma_rest_shift(inp, p0, 2); } }
+        @after <<let mut all_prepared>> #1
+            let ghost p1 = decoder.pos();
+            proof { assert(hashes_of(all_prepared@) =~= Seq::<Hash>::empty()); }
+        @loop 1 iter it
+            invariant
+                decoder.wf(), decoder.input() == inp, decoder.settings == old(decoder).settings, p1 <= decoder.pos(), inp == old(decoder).input(),
+                decoder.depths().0 >= 1, decoder.depths() == (old(decoder).depths().0 + 1, old(decoder).depths().1),
+                length <= 0x0FFF_FFFF, acc0.len() <= 0xFFFF, length <= max_length,
+                array_header_ok(old(decoder).rest(), read_value_kind, T::value_kind_spec(), length as int),
+                all_prepared@.len() == it.index@,
+                accumulator.wf(), accumulator.input() == digest_input(acc0, hashes_of(all_prepared@)),
+                effective_length == 2 + eff_total(all_prepared@),
+                total_bytes_hashed == hashed_total(all_prepared@),
+                bodies_rel(all_prepared@, inp, p1, decoder.pos()),
+        @before <<let prepared>> #1
+            let ghost items0 = all_prepared@; let ghost pa = decoder.pos();
+        @before <<accumulator = accumulator.concat>> #1
+            proof { lemma_digest_len(acc0, hashes_of(items0)); }
+        @after <<all_prepared.push(>> #1
+            proof {
+                assert(all_prepared@.drop_last() =~= items0);
+                assert(hashes_of(all_prepared@) =~= hashes_of(items0).push(prepared.summary_spec().hash));
+                lemma_digest_push(acc0, hashes_of(items0), prepared.summary_spec().hash);
+            }
+        @before <<total_bytes_hashed = total_bytes_hashed>> #2
+            proof { lemma_digest_len(acc0, hashes_of(all_prepared@)); }
+        @*/
+    }
+
+    // ---- ConcatenatedDigest ---------------------------------------------------------------------------
+    /*@item radix-transactions/src/model/any_transaction.rs :: const V1_INTENT
+    @*/
+    /*@item radix-transactions/src/model/any_transaction.rs :: const V1_SIGNED_INTENT
+    @*/
+    /*@item radix-transactions/src/model/any_transaction.rs :: const V1_NOTARIZED_TRANSACTION
+    @*/
+    /*@item radix-transactions/src/model/any_transaction.rs :: const V1_SYSTEM_TRANSACTION
+    @*/
+    /*@item radix-transactions/src/model/any_transaction.rs :: const V1_ROUND_UPDATE_TRANSACTION
+    @*/
+    /*@item radix-transactions/src/model/any_transaction.rs :: const LEDGER_TRANSACTION
+    @*/
+    /*@item radix-transactions/src/model/any_transaction.rs :: const V1_FLASH_TRANSACTION
+    @*/
+    /*@item radix-transactions/src/model/any_transaction.rs :: const V2_TRANSACTION_INTENT
+    @*/
+    /*@item radix-transactions/src/model/any_transaction.rs :: const V2_SIGNED_TRANSACTION_INTENT
+    @*/
+    /*@item radix-transactions/src/model/any_transaction.rs :: const V2_SUBINTENT
+    @*/
+    /*@item radix-transactions/src/model/any_transaction.rs :: const V2_NOTARIZED_TRANSACTION
+    @*/
+    /*@item radix-transactions/src/model/any_transaction.rs :: const V2_PARTIAL_TRANSACTION
+    @*/
+    /*@item radix-transactions/src/model/any_transaction.rs :: const V2_SIGNED_PARTIAL_TRANSACTION
+    @*/
+    /*@item radix-transactions/src/model/any_transaction.rs :: const V2_PREVIEW_TRANSACTION
+    @*/
+    #[repr(u8)] // (attribute of the real enum; the extractor drops attributes)
+    /*@item radix-transactions/src/model/any_transaction.rs :: enum TransactionDiscriminator
+    @derive Copy, Clone, PartialEq, Eq
+    @*/
+    /// ORACLE (REP-82): the discriminator byte of each payload kind -- all distinct
+    pub open spec fn disc_byte(d: TransactionDiscriminator) -> u8 {
+        match d {
+            TransactionDiscriminator::V1Intent => 1, TransactionDiscriminator::V1SignedIntent => 2, TransactionDiscriminator::V1Notarized => 3,
+            TransactionDiscriminator::V1System => 4, TransactionDiscriminator::V1RoundUpdate => 5, TransactionDiscriminator::Ledger => 7,
+            TransactionDiscriminator::V1Flash => 8, TransactionDiscriminator::V2TransactionIntent => 9,
+            TransactionDiscriminator::V2SignedTransactionIntent => 10, TransactionDiscriminator::V2Subintent => 11,
+            TransactionDiscriminator::V2Notarized => 12, TransactionDiscriminator::V2PartialTransaction => 13,
+            TransactionDiscriminator::V2SignedPartialTransaction => 14, TransactionDiscriminator::V2PreviewTransaction => 15,
+        }
+    }
+    pub proof fn lemma_disc_byte_injective(a: TransactionDiscriminator, b: TransactionDiscriminator)
+        requires disc_byte(a) == disc_byte(b) ensures a == b
+    {}
+
+    /// `pub enum ConcatenatedDigest {}` -- an uninhabited enum used purely as a namespace; Verus rejects datatypes
+    /// without a variant, so the namespace is declared as a unit struct (no value of it is ever created or used)
+    pub struct ConcatenatedDigest;
+    impl ConcatenatedDigest {
+        /*@fn radix-transactions/src/model/preparation/summarized_composite.rs :: impl ConcatenatedDigest :: fn prepare_transaction_payload
+        @sig
+            requires old(decoder).wf()
+            ensures
+                ret matches Ok(p) ==> prepared_frame(old(decoder), final(decoder))
+                    // canonical form: the expected enum/tuple header with THIS payload's discriminator and the exact field count
+                    && header_ok(old(decoder).rest(), header.with_disc_spec(disc_byte(discriminator)), T::arity())
+                    // the identifier commits to 'T', the discriminator and every child hash, in order
+                    && p.1.hash.0@ == spec_hash(p.0.preimage(payload_prefix(disc_byte(discriminator))))
+                    && p.1.effective_length == 2 + p.0.eff_sum()
+                    && p.1.total_bytes_hashed == p.0.hashed_sum() + 2 + 32 * T::arity()
+                    && p.0.children_rel(old(decoder).input(), old(decoder).pos() + header_len(old(decoder).rest(), header.with_disc_spec(disc_byte(discriminator))), final(decoder).pos())
+        @*/
+        /*@fn radix-transactions/src/model/preparation/summarized_composite.rs :: impl ConcatenatedDigest :: fn prepare_from_sbor_array_full_value
+        @sig
+            requires old(decoder).wf()
+            ensures
+                ret matches Ok(p) ==> prepared_frame(old(decoder), final(decoder))
+                    && array_header_ok(old(decoder).rest(), true, T::elem_kind(), p.0.count())
+                    && p.0.count() <= max_length && p.0.child_hashes().len() == p.0.count()
+                    && p.1.hash.0@ == spec_hash(digest_input(Seq::<u8>::empty(), p.0.child_hashes()))
+                    && p.0.children_rel(old(decoder).input(), old(decoder).pos() + array_header_len(old(decoder).rest(), true), final(decoder).pos()),
+                forall|n: int| array_header_ok(old(decoder).rest(), true, T::elem_kind(), n) && n > max_length && old(decoder).depths().0 < old(decoder).depths().1
+                    ==> ret == Err::<(T, Summary), PrepareError>(PrepareError::TooManyValues { value_type, actual: n as usize, max: max_length })
+        @*/
+        /*@fn radix-transactions/src/model/preparation/summarized_composite.rs :: impl ConcatenatedDigest :: fn prepare_from_sbor_array_value_body
+        @sig
+            requires old(decoder).wf()
+            ensures
+                ret matches Ok(p) ==> prepared_frame(old(decoder), final(decoder))
+                    && array_header_ok(old(decoder).rest(), false, T::elem_kind(), p.0.count())
+                    && p.0.count() <= max_length && p.0.child_hashes().len() == p.0.count()
+                    && p.1.hash.0@ == spec_hash(digest_input(Seq::<u8>::empty(), p.0.child_hashes()))
+                    && p.0.children_rel(old(decoder).input(), old(decoder).pos() + array_header_len(old(decoder).rest(), false), final(decoder).pos()),
+                forall|n: int| array_header_ok(old(decoder).rest(), false, T::elem_kind(), n) && n > max_length && old(decoder).depths().0 < old(decoder).depths().1
+                    ==> ret == Err::<(T, Summary), PrepareError>(PrepareError::TooManyValues { value_type, actual: n as usize, max: max_length })
+        @*/
+        /*@fn radix-transactions/src/model/preparation/summarized_composite.rs :: impl ConcatenatedDigest :: fn prepare_from_sbor_tuple_full_value
+        @sig
+            requires old(decoder).wf()
+            ensures
+                ret matches Ok(p) ==> prepared_frame(old(decoder), final(decoder))
+                    && header_ok(old(decoder).rest(), ExpectedTupleHeader::TupleWithValueKind, T::arity())
+                    && p.1.hash.0@ == spec_hash(p.0.preimage(Seq::<u8>::empty()))
+                    && p.0.children_rel(old(decoder).input(), old(decoder).pos() + header_len(old(decoder).rest(), ExpectedTupleHeader::TupleWithValueKind), final(decoder).pos())
+        @*/
+        /*@fn radix-transactions/src/model/preparation/summarized_composite.rs :: impl ConcatenatedDigest :: fn prepare_from_sbor_tuple_value_body
+        @sig
+            requires old(decoder).wf()
+            ensures
+                ret matches Ok(p) ==> prepared_frame(old(decoder), final(decoder))
+                    && header_ok(old(decoder).rest(), ExpectedTupleHeader::TupleNoValueKind, T::arity())
+                    && p.1.hash.0@ == spec_hash(p.0.preimage(Seq::<u8>::empty()))
+                    && p.0.children_rel(old(decoder).input(), old(decoder).pos() + header_len(old(decoder).rest(), ExpectedTupleHeader::TupleNoValueKind), final(decoder).pos())
+        @*/
+    }
+
+    // =============================================================================================
+    // radix-transactions/src/model/preparation/summarized_raw.rs : the LEAVES of the hash tree
+    // =============================================================================================
+    /*@item radix-transactions/src/model/preparation/summary.rs :: macro impl_has_summary
+    @*/
+
+    /// ORACLE for a raw leaf: the identifier is the hash of EXACTLY the bytes input[start..end] the value occupied
+    pub open spec fn raw_commits(s: Summary, input: Seq<u8>, start: int, end: int) -> bool {
+        0 <= start <= end <= input.len() && s.hash.0@ == spec_hash(input.subrange(start, end)) && s.total_bytes_hashed == end - start
+    }
+
+    // ---- SummarizedRawFullValue (V1: the hash covers the value-kind byte) ----
+    /*@item radix-transactions/src/model/preparation/summarized_raw.rs :: struct SummarizedRawFullValue
+    @derive Clone
+    @*/
+    impl<T: ManifestDecode> HasSummarySpec for SummarizedRawFullValue<T> {
+        open spec fn summary_spec(&self) -> Summary { self.summary }
+        open spec fn with_summary(self, s: Summary) -> Self { SummarizedRawFullValue { inner: self.inner, summary: s } }
+    }
+    impl_has_summary!(<T: ManifestDecode> SummarizedRawFullValue<T>);
+    impl<T: ManifestDecode> ValueSpec for SummarizedRawFullValue<T> {
+        open spec fn value_rel(&self, input: Seq<u8>, start: int, end: int) -> bool {
+            start < end && raw_commits(self.summary, input, start, end) && self.summary.effective_length == end - start
+        }
+    }
+    impl<T: ManifestDecode> TransactionPreparableFromValue for SummarizedRawFullValue<T> {
+        /*@fn radix-transactions/src/model/preparation/summarized_raw.rs :: impl<T: ManifestDecode> TransactionPreparableFromValue for SummarizedRawFullValue<T> :: fn prepare_from_value
+        @*/
+    }
+
+    // ---- SummarizedRawFullValueWithReferences ----
+    /*@item radix-transactions/src/model/preparation/summarized_raw.rs :: struct SummarizedRawFullValueWithReferences
+    @derive
+    @*/
+    impl<T: ManifestDecode> HasSummarySpec for SummarizedRawFullValueWithReferences<T> {
+        open spec fn summary_spec(&self) -> Summary { self.summary }
+        open spec fn with_summary(self, s: Summary) -> Self { SummarizedRawFullValueWithReferences { inner: self.inner, summary: s, references: self.references } }
+    }
+    impl<T: ManifestDecode> HasSummary for SummarizedRawFullValueWithReferences<T> {
+        /*@fn radix-transactions/src/model/preparation/summarized_raw.rs :: impl<T: ManifestDecode> HasSummary for SummarizedRawFullValueWithReferences<T> :: fn get_summary
+        @*/
+        /*@fn radix-transactions/src/model/preparation/summarized_raw.rs :: impl<T: ManifestDecode> HasSummary for SummarizedRawFullValueWithReferences<T> :: fn summary_mut
+        @*/
+    }
+    impl<T: ManifestDecode> ValueSpec for SummarizedRawFullValueWithReferences<T> {
+        open spec fn value_rel(&self, input: Seq<u8>, start: int, end: int) -> bool {
+            start < end && raw_commits(self.summary, input, start, end) && self.summary.effective_length == end - start
+        }
+    }
+    impl<T: ManifestDecode> TransactionPreparableFromValue for SummarizedRawFullValueWithReferences<T> {
+        /*@fn radix-transactions/src/model/preparation/summarized_raw.rs :: impl<T: ManifestDecode> TransactionPreparableFromValue for SummarizedRawFullValueWithReferences<T> :: fn prepare_from_value
+        @*/
+    }
+
+    // ---- SummarizedRawValueBodyWithReferences (V2: the hash covers the body only) ----
+    /*@item radix-transactions/src/model/preparation/summarized_raw.rs :: struct SummarizedRawValueBodyWithReferences
+    @derive
+    @*/
+    impl<T: ManifestDecode + ManifestCategorize> HasSummarySpec for SummarizedRawValueBodyWithReferences<T> {
+        open spec fn summary_spec(&self) -> Summary { self.summary }
+        open spec fn with_summary(self, s: Summary) -> Self { SummarizedRawValueBodyWithReferences { inner: self.inner, summary: s, references: self.references } }
+    }
+    impl_has_summary!(<T: ManifestDecode + ManifestCategorize> SummarizedRawValueBodyWithReferences<T>);
+    impl<T: ManifestDecode + ManifestCategorize> ValueBodySpec for SummarizedRawValueBodyWithReferences<T> {
+        open spec fn value_kind_spec() -> ManifestValueKind { T::value_kind_spec() }
+        open spec fn body_rel(&self, input: Seq<u8>, start: int, end: int) -> bool { raw_commits(self.summary, input, start, end) }
+        proof fn body_rel_frame(&self, s: Summary, input: Seq<u8>, start: int, end: int) {}
+    }
+    impl<T: ManifestDecode + ManifestCategorize> TransactionPreparableFromValueBody for SummarizedRawValueBodyWithReferences<T> {
+        /*@fn radix-transactions/src/model/preparation/summarized_raw.rs :: impl<T: ManifestDecode + ManifestCategorize> TransactionPreparableFromValueBody for SummarizedRawValueBodyWithReferences<T> :: fn prepare_from_value_body
+        @sig
+            ensures ret matches Ok(v) ==> v.summary.effective_length == final(decoder).pos() - old(decoder).pos()
+        @*/
+        /*@fn radix-transactions/src/model/preparation/summarized_raw.rs :: impl<T: ManifestDecode + ManifestCategorize> TransactionPreparableFromValueBody for SummarizedRawValueBodyWithReferences<T> :: fn value_kind
+        @*/
+    }
+
+    // ---- SummarizedRawValueBody ----
+    /*@item radix-transactions/src/model/preparation/summarized_raw.rs :: struct SummarizedRawValueBody
+    @derive Debug, Clone, Eq, PartialEq
+    @*/
+    impl<T: ManifestDecode + ManifestCategorize> HasSummarySpec for SummarizedRawValueBody<T> {
+        open spec fn summary_spec(&self) -> Summary { self.summary }
+        open spec fn with_summary(self, s: Summary) -> Self { SummarizedRawValueBody { inner: self.inner, summary: s } }
+    }
+    impl_has_summary!(<T: ManifestDecode + ManifestCategorize> SummarizedRawValueBody<T>);
+    impl<T: ManifestDecode + ManifestCategorize> ValueBodySpec for SummarizedRawValueBody<T> {
+        open spec fn value_kind_spec() -> ManifestValueKind { T::value_kind_spec() }
+        open spec fn body_rel(&self, input: Seq<u8>, start: int, end: int) -> bool { raw_commits(self.summary, input, start, end) }
+        proof fn body_rel_frame(&self, s: Summary, input: Seq<u8>, start: int, end: int) {}
+    }
+    impl<T: ManifestDecode + ManifestCategorize> TransactionPreparableFromValueBody for SummarizedRawValueBody<T> {
+        /*@fn radix-transactions/src/model/preparation/summarized_raw.rs :: impl<T: ManifestDecode + ManifestCategorize> TransactionPreparableFromValueBody for SummarizedRawValueBody<T> :: fn prepare_from_value_body
+        @sig
+            ensures ret matches Ok(v) ==> v.summary.effective_length == final(decoder).pos() - old(decoder).pos()
+        @*/
+        /*@fn radix-transactions/src/model/preparation/summarized_raw.rs :: impl<T: ManifestDecode + ManifestCategorize> TransactionPreparableFromValueBody for SummarizedRawValueBody<T> :: fn value_kind
+        @*/
+    }
+
+    // ---- SummarizedRawValueBodyRawBytes (the hash covers the decoded byte vector, not its SBOR framing) ----
+    /*@item radix-transactions/src/model/preparation/summarized_raw.rs :: struct SummarizedRawValueBodyRawBytes
+    @derive Clone
+    @*/
+    impl HasSummarySpec for SummarizedRawValueBodyRawBytes {
+        open spec fn summary_spec(&self) -> Summary { self.summary }
+        open spec fn with_summary(self, s: Summary) -> Self { SummarizedRawValueBodyRawBytes { inner: self.inner, summary: s } }
+    }
+    impl_has_summary!(SummarizedRawValueBodyRawBytes);
+    impl ValueBodySpec for SummarizedRawValueBodyRawBytes {
+        open spec fn value_kind_spec() -> ManifestValueKind { ValueKind::Array }
+        open spec fn body_rel(&self, input: Seq<u8>, start: int, end: int) -> bool {
+            self.summary.hash.0@ == spec_hash(self.inner@) && self.summary.total_bytes_hashed == self.inner@.len()
+        }
+        proof fn body_rel_frame(&self, s: Summary, input: Seq<u8>, start: int, end: int) {}
+    }
+    impl TransactionPreparableFromValueBody for SummarizedRawValueBodyRawBytes {
+        /*@fn radix-transactions/src/model/preparation/summarized_raw.rs :: impl TransactionPreparableFromValueBody for SummarizedRawValueBodyRawBytes :: fn prepare_from_value_body
+        @sig
+            ensures ret matches Ok(v) ==> v.summary.effective_length == 2 + v.inner@.len()
+        @*/
+        /*@fn radix-transactions/src/model/preparation/summarized_raw.rs :: impl TransactionPreparableFromValueBody for SummarizedRawValueBodyRawBytes :: fn value_kind
+        @*/
+    }
+
+    // ---- RawHash (a value that already IS a hash: taken over as its own identifier, nothing is hashed) ----
+    /*@item radix-transactions/src/model/preparation/summarized_raw.rs :: struct RawHash
+    @derive Clone
+    @*/
+    impl HasSummarySpec for RawHash {
+        open spec fn summary_spec(&self) -> Summary { self.summary }
+        open spec fn with_summary(self, s: Summary) -> Self { RawHash { hash: self.hash, summary: s } }
+    }
+    impl_has_summary!(RawHash);
+    impl ValueBodySpec for RawHash {
+        open spec fn value_kind_spec() -> ManifestValueKind { ValueKind::Array }
+        open spec fn body_rel(&self, input: Seq<u8>, start: int, end: int) -> bool {
+            self.summary.hash == self.hash && self.summary.total_bytes_hashed == 0
+        }
+        proof fn body_rel_frame(&self, s: Summary, input: Seq<u8>, start: int, end: int) {}
+    }
+    impl TransactionPreparableFromValueBody for RawHash {
+        /*@fn radix-transactions/src/model/preparation/summarized_raw.rs :: impl TransactionPreparableFromValueBody for RawHash :: fn prepare_from_value_body
+        @sig
+            ensures ret matches Ok(v) ==> v.summary.effective_length == final(decoder).pos() - old(decoder).pos()
+        @*/
+        /*@fn radix-transactions/src/model/preparation/summarized_raw.rs :: impl TransactionPreparableFromValueBody for RawHash :: fn value_kind
+        @*/
+    }
+
+    // =============================================================================================
+    // radix-transactions/src/model/preparation/traits.rs : payload level + ONE representative chain
+    // (V2 notarized transaction -> V2 signed transaction intent), impls generated by the real macro
+    // =============================================================================================
+    pub trait RawTransactionPayload: AsRef<[u8]> {
+        const KIND: TransactionPayloadKind;
+        /*@fn radix-transactions/src/model/preparation/traits.rs :: trait RawTransactionPayload: AsRef<[u8]> + From<Vec<u8>> + Into<Vec<u8>> :: fn as_slice
+        @sig
+            ensures ret == self.as_ref_spec()
+        @*/
+    }
+    impl RawTransactionPayload for RawSignedTransactionIntent { const KIND: TransactionPayloadKind = TransactionPayloadKind::Other; }
+    impl RawTransactionPayload for RawNotarizedTransaction { const KIND: TransactionPayloadKind = TransactionPayloadKind::CompleteUserTransaction; }
+
+    pub trait TransactionPayload {
+        type Prepared: PreparedTransaction<Raw = Self::Raw>;
+        type Raw: RawTransactionPayload;
+    }
+
+    /// spec companion of `PreparedTransaction`
+    pub trait PreparedTxSpec: HasSummarySpec + Sized {
+        spec fn discriminator() -> u8;
+        spec fn field_count() -> usize;
+        spec fn field_hashes(&self) -> Seq<Hash>;
+        /// `'T' ++ discriminator ++ field hashes` written out (== digest_input(payload_prefix(d), field_hashes()))
+        spec fn payload_preimage(&self) -> Seq<u8>;
+        spec fn fields_rel(&self, input: Seq<u8>, start: int, end: int) -> bool;
+    }
+    /// ORACLE (C32) for a prepared payload found at input[start..end]: canonical header with the payload's own
+    /// discriminator and field count; identifier == hash('T' ++ discriminator ++ field identifiers); the fields
+    /// occupy exactly the bytes after the header
+    pub open spec fn tx_rel<P: PreparedTxSpec>(v: P, input: Seq<u8>, start: int, end: int, header: ExpectedHeaderKind) -> bool {
+        let h = header.with_disc_spec(P::discriminator());
+        &&& 0 <= start <= end <= input.len()
+        &&& header_ok(rest_of(input, start), h, P::field_count())
+        &&& v.summary_spec().hash.0@ == spec_hash(v.payload_preimage())
+        &&& v.fields_rel(input, start + header_len(rest_of(input, start), h), end)
+    }
+    pub trait PreparedTransaction: PreparedTxSpec + Sized {
+        type Raw: RawTransactionPayload;
+
+        fn prepare_from_transaction_enum(decoder: &mut TransactionDecoder) -> (ret: Result<Self, PrepareError>)
+            requires old(decoder).wf()
+            ensures ret matches Ok(v) ==> prepared_frame(old(decoder), final(decoder))
+                && tx_rel(v, old(decoder).input(), old(decoder).pos(), final(decoder).pos(), ExpectedHeaderKind::EnumWithValueKind);
+
+        /*@fn radix-transactions/src/model/preparation/traits.rs :: trait PreparedTransaction: Sized :: fn prepare
+        @sig
+            ensures
+                // C32 canonical form: accepted payloads are within the size limit of their kind, start with the manifest
+                // SBOR prefix, and are consumed up to the LAST byte (no trailing bytes) by the enum-wrapped payload
+                ret matches Ok(v) ==> len_ok(*settings, <Self::Raw as RawTransactionPayload>::KIND, raw.as_ref_spec()@.len() as usize)
+                    && raw.as_ref_spec()@.len() >= 1 && raw.as_ref_spec()@[0] == 0x4d
+                    && tx_rel(v, raw.as_ref_spec()@, 1, raw.as_ref_spec()@.len() as int, ExpectedHeaderKind::EnumWithValueKind),
+                !len_ok(*settings, <Self::Raw as RawTransactionPayload>::KIND, raw.as_ref_spec()@.len() as usize) ==> ret == Err::<Self, PrepareError>(PrepareError::TransactionTooLarge)
+        @*/
+    }
+
+    /*@item radix-transactions/src/model/preparation/traits.rs :: macro define_transaction_payload
+    @subst <<#[derive(Debug, Clone, Eq, PartialEq)]>> => <<#[derive(Clone, Eq, PartialEq)]>> why: the derive filter (R2) that the extractor applies to every struct item, here inside a macro body: Verus cannot process the derived Debug impl (core::fmt::Formatter::debug_struct_fieldN_finish is unsupported); no hashing/decoding code is touched
+    @*/
+
+    // ---- V2 signed transaction intent: the invocation of /repo (v2/signed_transaction_intent_v2.rs) ----
+    define_transaction_payload!(
+        SignedTransactionIntentV2,
+        RawSignedTransactionIntent,
+        PreparedSignedTransactionIntentV2 {
+            transaction_intent: PreparedTransactionIntentV2,
+            transaction_intent_signatures: PreparedIntentSignaturesV2,
+            non_root_subintent_signatures: PreparedNonRootSubintentSignaturesV2,
+        },
+        TransactionDiscriminator::V2SignedTransactionIntent,
+    );
+    impl HasSummarySpec for PreparedSignedTransactionIntentV2 {
+        open spec fn summary_spec(&self) -> Summary { self.summary }
+        open spec fn with_summary(self, s: Summary) -> Self { PreparedSignedTransactionIntentV2 { summary: s, ..self } }
+    }
+    impl PreparedTxSpec for PreparedSignedTransactionIntentV2 {
+        open spec fn discriminator() -> u8 { 10 }
+        open spec fn field_count() -> usize { 3 }
+        open spec fn field_hashes(&self) -> Seq<Hash> {
+            seq![self.transaction_intent.summary.hash, self.transaction_intent_signatures.summary.hash, self.non_root_subintent_signatures.summary.hash]
+        }
+        open spec fn payload_preimage(&self) -> Seq<u8> {
+            payload_prefix(10) + self.transaction_intent.summary.hash.0@ + self.transaction_intent_signatures.summary.hash.0@ + self.non_root_subintent_signatures.summary.hash.0@
+        }
+        open spec fn fields_rel(&self, input: Seq<u8>, start: int, end: int) -> bool {
+            // consecutive, gap-free byte ranges, in declaration order (the tuple oracle of the same fields)
+            (self.transaction_intent, self.transaction_intent_signatures, self.non_root_subintent_signatures).children_rel(input, start, end)
+        }
+    }
+    /// (the derived `PartialEq` of the generated struct is not used and not specified)
+    impl vstd::std_specs::cmp::PartialEqSpecImpl for PreparedSignedTransactionIntentV2 {
+        open spec fn obeys_eq_spec() -> bool { false }
+        open spec fn eq_spec(&self, other: &Self) -> bool { true }
+    }
+    impl ValueBodySpec for PreparedSignedTransactionIntentV2 {
+        open spec fn value_kind_spec() -> ManifestValueKind { ValueKind::Tuple }
+        open spec fn body_rel(&self, input: Seq<u8>, start: int, end: int) -> bool { tx_rel(*self, input, start, end, ExpectedHeaderKind::TupleNoValueKind) }
+        proof fn body_rel_frame(&self, s: Summary, input: Seq<u8>, start: int, end: int) {}
+    }
+    impl PreparedSignedTransactionIntentV2 {
+        /*@fn radix-transactions/src/model/v2/signed_transaction_intent_v2.rs :: impl HasSignedTransactionIntentHash for PreparedSignedTransactionIntentV2 :: fn signed_transaction_intent_hash
+        @sig
+            ensures ret.0 == self.summary.hash
+        @*/
+    }
+
+    // ---- V2 notarized transaction: the invocation of /repo (v2/notarized_transaction_v2.rs) ----
+    /*@item radix-transactions/src/model/v2/notarized_transaction_v2.rs :: type PreparedNotarySignatureV2
+    @*/
+    define_transaction_payload!(
+        NotarizedTransactionV2,
+        RawNotarizedTransaction,
+        PreparedNotarizedTransactionV2 {
+            signed_intent: PreparedSignedTransactionIntentV2,
+            notary_signature: PreparedNotarySignatureV2,
+        },
+        TransactionDiscriminator::V2Notarized,
+    );
+    impl HasSummarySpec for PreparedNotarizedTransactionV2 {
+        open spec fn summary_spec(&self) -> Summary { self.summary }
+        open spec fn with_summary(self, s: Summary) -> Self { PreparedNotarizedTransactionV2 { summary: s, ..self } }
+    }
+    impl PreparedTxSpec for PreparedNotarizedTransactionV2 {
+        open spec fn discriminator() -> u8 { 12 }
+        open spec fn field_count() -> usize { 2 }
+        open spec fn field_hashes(&self) -> Seq<Hash> { seq![self.signed_intent.summary.hash, self.notary_signature.summary.hash] }
+        open spec fn payload_preimage(&self) -> Seq<u8> {
+            payload_prefix(12) + self.signed_intent.summary.hash.0@ + self.notary_signature.summary.hash.0@
+        }
+        open spec fn fields_rel(&self, input: Seq<u8>, start: int, end: int) -> bool {
+            (self.signed_intent, self.notary_signature).children_rel(input, start, end)
+        }
+    }
+    impl vstd::std_specs::cmp::PartialEqSpecImpl for PreparedNotarizedTransactionV2 {
+        open spec fn obeys_eq_spec() -> bool { false }
+        open spec fn eq_spec(&self, other: &Self) -> bool { true }
+    }
+    impl ValueBodySpec for PreparedNotarizedTransactionV2 {
+        open spec fn value_kind_spec() -> ManifestValueKind { ValueKind::Tuple }
+        open spec fn body_rel(&self, input: Seq<u8>, start: int, end: int) -> bool { tx_rel(*self, input, start, end, ExpectedHeaderKind::TupleNoValueKind) }
+        proof fn body_rel_frame(&self, s: Summary, input: Seq<u8>, start: int, end: int) {}
+    }
+    impl PreparedNotarizedTransactionV2 {
+        /*@fn radix-transactions/src/model/v2/notarized_transaction_v2.rs :: impl HasNotarizedTransactionHash for PreparedNotarizedTransactionV2 :: fn notarized_transaction_hash
+        @sig
+            ensures ret.0 == self.summary.hash
+        @*/
+    }
+
+    // =============================================================================================
+    // C32 corollaries for the representative chain (hand proofs over the contracts proved above)
+    // =============================================================================================
+    pub proof fn lemma_signed_intent_preimage(v: PreparedSignedTransactionIntentV2)
+        ensures v.payload_preimage() == digest_input(payload_prefix(10), v.field_hashes())
+    {
+        lemma_preimage_3((v.transaction_intent, v.transaction_intent_signatures, v.non_root_subintent_signatures), payload_prefix(10));
+        assert(v.field_hashes() =~= (v.transaction_intent, v.transaction_intent_signatures, v.non_root_subintent_signatures).child_hashes());
+    }
+    pub proof fn lemma_notarized_preimage(v: PreparedNotarizedTransactionV2)
+        ensures v.payload_preimage() == digest_input(payload_prefix(12), v.field_hashes())
+    {
+        lemma_preimage_2((v.signed_intent, v.notary_signature), payload_prefix(12));
+        assert(v.field_hashes() =~= (v.signed_intent, v.notary_signature).child_hashes());
+    }
+    /// what `prepare`/`prepare_from_*` establish about the identifier of a prepared payload
+    pub open spec fn id_ok<P: PreparedTxSpec>(v: P) -> bool { v.summary_spec().hash.0@ == spec_hash(v.payload_preimage()) }
+
+    /// "changing any field of a hashed part changes the corresponding hash", notarized level:
+    /// equal NotarizedTransactionHash ==> same signed-intent hash and same notary-signature hash
+    pub proof fn lemma_notarized_hash_commits(a: PreparedNotarizedTransactionV2, b: PreparedNotarizedTransactionV2)
+        requires hash_injective(), id_ok(a), id_ok(b), a.summary.hash == b.summary.hash
+        ensures a.signed_intent.summary.hash == b.signed_intent.summary.hash, a.notary_signature.summary.hash == b.notary_signature.summary.hash
+    {
+        lemma_notarized_preimage(a); lemma_notarized_preimage(b);
+        lemma_digest_commits(payload_prefix(12), a.field_hashes(), payload_prefix(12), b.field_hashes());
+        assert(a.field_hashes()[0] == b.field_hashes()[0] && a.field_hashes()[1] == b.field_hashes()[1]);
+    }
+    /// signed-intent level: equal SignedTransactionIntentHash ==> same intent hash and same signature-list hashes
+    pub proof fn lemma_signed_intent_hash_commits(a: PreparedSignedTransactionIntentV2, b: PreparedSignedTransactionIntentV2)
+        requires hash_injective(), id_ok(a), id_ok(b), a.summary.hash == b.summary.hash
+        ensures
+            a.transaction_intent.summary.hash == b.transaction_intent.summary.hash,
+            a.transaction_intent_signatures.summary.hash == b.transaction_intent_signatures.summary.hash,
+            a.non_root_subintent_signatures.summary.hash == b.non_root_subintent_signatures.summary.hash,
+    {
+        lemma_signed_intent_preimage(a); lemma_signed_intent_preimage(b);
+        lemma_digest_commits(payload_prefix(10), a.field_hashes(), payload_prefix(10), b.field_hashes());
+        assert(a.field_hashes()[0] == b.field_hashes()[0] && a.field_hashes()[1] == b.field_hashes()[1] && a.field_hashes()[2] == b.field_hashes()[2]);
+    }
+    /// two levels chained: the notarized hash commits to the transaction-intent hash and all signature hashes
+    pub proof fn lemma_notarized_hash_commits_deep(a: PreparedNotarizedTransactionV2, b: PreparedNotarizedTransactionV2)
+        requires hash_injective(), id_ok(a), id_ok(b), id_ok(a.signed_intent), id_ok(b.signed_intent), a.summary.hash == b.summary.hash
+        ensures
+            a.signed_intent.transaction_intent.summary.hash == b.signed_intent.transaction_intent.summary.hash,
+            a.signed_intent.transaction_intent_signatures.summary.hash == b.signed_intent.transaction_intent_signatures.summary.hash,
+            a.signed_intent.non_root_subintent_signatures.summary.hash == b.signed_intent.non_root_subintent_signatures.summary.hash,
+            a.notary_signature.summary.hash == b.notary_signature.summary.hash,
+    {
+        lemma_notarized_hash_commits(a, b);
+        lemma_signed_intent_hash_commits(a.signed_intent, b.signed_intent);
+    }
+    /// leaf level: the notary signature's identifier commits to every byte of its encoded body
+    pub proof fn lemma_notary_signature_commits(a: PreparedNotarySignatureV2, ia: Seq<u8>, sa: int, ea: int, b: PreparedNotarySignatureV2, ib: Seq<u8>, sb: int, eb: int)
+        requires hash_injective(), a.body_rel(ia, sa, ea), b.body_rel(ib, sb, eb), a.summary.hash == b.summary.hash
+        ensures ia.subrange(sa, ea) == ib.subrange(sb, eb)
+    {}
+    /// domain separation: a signed-intent identifier never equals a notarized-transaction identifier
+    pub proof fn lemma_signed_vs_notarized_distinct(a: PreparedSignedTransactionIntentV2, b: PreparedNotarizedTransactionV2)
+        requires hash_injective(), id_ok(a), id_ok(b)
+        ensures a.summary.hash != b.summary.hash
+    {
+        lemma_signed_intent_preimage(a); lemma_notarized_preimage(b);
+        if a.summary.hash == b.summary.hash { lemma_discriminator_separates(10, a.field_hashes(), 12, b.field_hashes()); }
+    }
+    /// canonical form of an accepted notarized payload: `4d 22 0c 02 ...` and nothing after the last field
+    pub proof fn lemma_notarized_payload_shape(v: PreparedNotarizedTransactionV2, payload: Seq<u8>)
+        requires payload.len() >= 1, payload[0] == 0x4d, tx_rel(v, payload, 1, payload.len() as int, ExpectedHeaderKind::EnumWithValueKind)
+        ensures payload.len() >= 4, payload[1] == 0x22, payload[2] == 12, size_at(rest_of(payload, 3)) matches Some(p) && p.0 == 2
+    {
+        let h = ExpectedTupleHeader::EnumWithValueKind { discriminator: 12u8 };
+        let r = rest_of(payload, 1);
+        lemma_rest_shift(payload, 1, 0);
+        assert(header_bytes(h) =~= seq![0x22u8, 12u8]);
+        assert(header_bytes(h)[0] == r[0] && header_bytes(h)[1] == r[1]);
+        lemma_rest_shift(payload, 1, 2);
     }
 
     /// CANONICITY of the value-kind byte for manifest SBOR: a byte announces at most one kind and every kind
